@@ -30,6 +30,10 @@ type gen struct {
 	s    *session
 	next int // next item value (globally unique within a script)
 	cls  string
+	// dynamic family: priorities removed while their items are in flight (candidates for being
+	// registered again), and the number of rounds left in which every input is kept full
+	readd []uint
+	boost int
 }
 
 func (g *gen) do(op string) string {
@@ -135,7 +139,7 @@ func (g *gen) arrivals(active map[uint]bool) {
 			continue
 		}
 		n := g.r.Intn(cap(s.chans[c]) + 1)
-		if g.k.saturated {
+		if g.k.saturated || g.boost > 0 {
 			n = cap(s.chans[c])
 		}
 		for i := 0; i < n && s.roomIn(c); i++ {
@@ -219,6 +223,7 @@ func (g *gen) script() {
 	r := g.r
 	ver, div, H, keys, flt := g.config()
 	g.cls = g.k.family + ":" + ver
+	g.readd, g.boost = nil, 0
 	s, reply := newSession(g.w, ver, div, H, keys, flt)
 	g.s = s
 	g.w.Case(g.cls, true, s.script[0], reply)
@@ -267,7 +272,14 @@ func (g *gen) script() {
 				}
 			}
 		}
-		g.releases(r.Intn(4))
+		if g.boost > 0 {
+			// after a priority was registered again while its items are still in flight: keep
+			// them in flight and every input full, so that a forgotten count shows as over-commitment
+			g.boost--
+			g.releases(0)
+		} else {
+			g.releases(r.Intn(4))
+		}
 
 		// ---- v1: the loop-top select
 		if ver == "v1" {
@@ -279,6 +291,15 @@ func (g *gen) script() {
 				return
 			}
 			switch {
+			case g.k.dynamic && len(g.readd) > 0 && r.Intn(2) == 0:
+				// RemoveInput(p) was called while items of p are in flight: register p again
+				// (fresh channel) before they are fed back
+				p := g.readd[0]
+				g.readd = g.readd[1:]
+				c := nextChan
+				nextChan++
+				g.do(fmt.Sprintf("top add %d %d %d", p, c, 5))
+				g.boost = 3
 			case g.k.dynamic && r.Intn(3) == 0:
 				if r.Intn(2) == 0 {
 					p := uint(1 + r.Intn(12))
@@ -301,7 +322,11 @@ func (g *gen) script() {
 					}
 					g.do(fmt.Sprintf("top add %d %d %d", p, c, 1+r.Intn(5)))
 				} else if l := g.liveChans(); len(l) > 0 {
-					g.do(fmt.Sprintf("top remove %d", s.chanPri[pick(r, l)]))
+					p := s.chanPri[pick(r, l)]
+					if s.inflight[p] > 0 {
+						g.readd = append(g.readd, p)
+					}
+					g.do(fmt.Sprintf("top remove %d", p))
 				} else {
 					g.do("top none")
 				}
